@@ -34,6 +34,15 @@ def workload(prop, tier, seed, stream, k):
         L = c.script
         if rnd.random() < 0.5:
             L = [L[0]] + ["set_param p0 4 %d" % rnd.choice([1, 2, 3])] + L[1:] if L[0].startswith(("create", "load")) else L
+    elif stream == "oddparam":
+        # legal but extreme parameter values, then every kind of solve: whatever the answer, no crash
+        c, m, cfg = sf.gen_case("C01", tier, seed + 1000, rnd.choice(["small-rand", "planted-opt", "tiny"]), k)
+        L = list(c.script)
+        i = next((t for t, ln in enumerate(L) if ln.startswith(("solve_exact", "opt_primal", "opt_dual"))), len(L))
+        odd = rnd.choice(["set_param_num p0 6 1/%d" % (2 ** rnd.choice([1100, 2000])), "set_param_num p0 6 %d" % (10 ** rnd.choice([30, 200])),
+                          "set_param p0 5 1", "set_param p0 5 2999", "set_param_num p0 8 -%d" % (10 ** 140), "set_param_num p0 9 %d" % (10 ** 140),
+                          "set_param_num p0 8 1/%d" % (2 ** 1100), "set_param p0 4 3"])
+        L = L[:i] + [odd] + L[i:] + ["opt_dual p0", "solve_exact p0 dual - xy", "copy_dbl p0", "copy_mpf p0 128"]
     elif stream == "probe":
         allc = c07.gen_cases(tier)
         c = allc[rnd.randrange(len(allc))]
